@@ -39,8 +39,8 @@ func init() {
 		r.RequireMin("V-COVER", 7*8)
 	})
 	register("C08", []string{"./backend/groth16/...", "./backend/plonk/...", "./backend/witness/..."}, func(p *Prog, r *Report) {
-		r.Engines = []string{"verifier(V-GUARD-IDX,V-GUARD-LEN,V-ERR)"}
-		r.Explanation = "Static analysis of the Groth16 and PLONK Verify functions on all 7 curves. Decided: (V-GUARD-IDX) every index / slice expression whose base is a slice supplied by the proof or the public witness is dominated by a length check that returns an error (or bounded by a loop over that same slice); (V-GUARD-LEN) every such slice has its length compared with a trusted length on all accepting paths; (V-ERR) no error result is discarded in the verifiers. NOT decided: panics inside gnark-crypto or the decoders' library code, memory exhaustion from length prefixes, the Solidity helper UnmarshalSolidity (outside the property's quantifier)."
+		r.Engines = []string{"verifier(V-GUARD-IDX,V-GUARD-LEN,V-ERR)", "hdrbound(V-HDR-BOUND)"}
+		r.Explanation = "Static analysis of the Groth16 and PLONK Verify functions on all 7 curves. Decided: (V-GUARD-IDX) every index / slice expression whose base is a slice supplied by the proof or the public witness is dominated by a length check that returns an error (or bounded by a loop over that same slice); (V-GUARD-LEN) every such slice has its length compared with a trusted length on all accepting paths; (V-ERR) no error result is discarded in the verifiers and decoders; (V-HDR-BOUND) in backend/witness, the counts decoded from the length header (the fields assigned from an encoding/binary read, found from the decoder itself) never bound an index or slice expression without a dominating comparison with len() of the same slice (forward taint through conversions, arithmetic, spills and in-module callees); slices that only grow by append are checked through their root. NOT decided: panics inside gnark-crypto or the decoders' library code, memory exhaustion from length prefixes, the Solidity helper UnmarshalSolidity (outside the property's quantifier)."
 		r.RuleText = "one obligation per index/slice site on an untrusted slice, per untrusted slice path, per error-returning call; nontrivial = a dominating guard / loop bound / consuming use was found"
 		r.Assumptions = []string{cgAssumption, "arrays (LRO [3], H [3]) are type-fixed and exempt", "length-fixing callees: pedersen.BatchVerifyMultiVk, kzg.FoldProof (contracts in rules/verifier_events.json)"}
 		ve, err := newVerifierEngine(p)
@@ -70,6 +70,8 @@ func init() {
 			}
 		}
 		r.Extra["decoders_checked"] = nDec
+		RunHeaderBounds(p, r, func(pk string) bool { return pk == modPath+"/backend/witness" })
+		r.RequireMin("V-HDR-BOUND", 3)
 		r.RequireMin("V-GUARD-IDX", 14*3)
 		r.RequireMin("V-GUARD-LEN", 14*2)
 	})
